@@ -13,6 +13,15 @@ NA = {
 
 # id -> (engine, technique, level text, level note, design ref)
 CHECKS = {
+ "C08": ("modsim", "edit-session simulation: seeded operation histories with persistence points (close with Cleanup+Format, reopen with Parse) on two real sessions, each compared with a set/map reference model of the documented operations",
+   "Seeded well-formed go.mod/go.work files whose every directive line carries numbered comments, 1-40 operations with valid arguments over small pools, persistence points with probability 1/5 per step; at every persistence point and at the end: the output parses strictly, its directives equal the model as multisets, and every line that no operation removed or rewrote without a documented comment guarantee still has its value and its own leading and end-of-line comments.",
+   "Weak fit, stated: modfile has no I/O, clock or concurrency; nothing can be injected. History, persistence points and Go's map order are the only simulator-owned dimensions; the deciding part is the comparison with the reference model.", "4 (C08/C15/C16)"),
+ "C15": ("modsim", "edit-session simulation (as C08): the exported lists of File/WorkFile after Cleanup are compared with a strict parse of the formatted bytes at every persistence point, for an in-memory session and a re-opened one",
+   "Same sessions as C08; oracles: no zero-value placeholder entries after Cleanup, and module/go/toolchain/godebug/require+indirect/exclude/replace/retract+rationale/tool/use lists equal the strict re-parse as multisets, for both the long in-memory session and the session re-opened at persistence points.",
+   "Weak fit, stated (see C08).", "4 (C08/C15/C16)"),
+ "C16": ("modsim", "edit-session simulation of the bulk setters: random pre-state, one SetRequire/SetRequireSeparateIndirect/SetUse with a random requested list, executed on the in-memory session and 4 times from identical re-parsed bytes (sampling Go's map iteration order)",
+   "Oracles after the setter and Cleanup: strict parse; exactly one directive per requested path with the requested version and indirect marking, none for other paths; every block in its documented order (reference comparators incl. an independent SemVer precedence); the first existing line of every kept path keeps its leading and end-of-line comments; the one-uncommented-statement case leaves no block mixing direct and indirect requirements; the 4 repetitions are byte-identical.",
+   "Weak fit, stated (see C08). Map order is sampled by repetition, not controlled.", "4 (C08/C15/C16)"),
  "C05": ("zipsim", "deterministic simulation of the zip pipeline: simulated zip.File sources and writer with placed I/O faults -> real Create -> stored bytes -> real CheckZip/Unzip in a sandbox; reference restriction checker over the archive listing",
    "Seeded source trees over an adversarial name alphabet, truthful or with 1-3 placed faults (writer error/short write at byte k, Open error, read error after k bytes, file grew/shrank after Lstat, Lstat error), valid and invalid module/version pairs; every successful Create is checked entry by entry against the documented restrictions, then through the real CheckZip and Unzip and compared byte for byte with the files the check reported valid.",
    "Faults that never reached Create are not counted as delivered. Sampled, not exhaustive.", "4 (C05)"),
